@@ -298,8 +298,22 @@ func (g *G) exportedPair() (Schema, Schema, string) {
 		if !ok {
 			continue
 		}
+		pkSame := func(t *Table) bool { // a UNIQUE constraint over exactly the key columns (model domain: the engine model drops it, SQLite keeps one over an INTEGER PRIMARY KEY)
+			if t.PK == nil || len(t.PK.Parts) != len(u) {
+				return false
+			}
+			for k := range u {
+				if t.PK.Parts[k].Col != u[k] {
+					return false
+				}
+			}
+			return true
+		}
 		switch g.r.Intn(3) {
 		case 0:
+			if pkSame(at) {
+				continue
+			}
 			at.Uniques = append(at.Uniques, append([]string(nil), u...))
 			d += "u"
 		case 1:
